@@ -195,6 +195,9 @@ Definition lit_parse (len : Z) (p : bytes) : option (litd * bytes) :=
     let mt := unbe (firstn 4 r1) in
     let r2 := skipn 4 r1 in
     let k := len - (6 + fnl) in
+    (* a header that declares fewer octets than format, name length, name and date take is refused (the name, the date and -- the
+       count k being negative -- the contents used to be taken from the packets that follow) *)
+    if len <? 6 + fnl then None else
     Some ({| l_format := f; l_name := name; l_mtime := mt; l_data := py_take k r2 |}, py_drop k r2)
   | _ => None
   end.
@@ -409,7 +412,8 @@ Section Prim.
       else if tag =? 18 then versioned len r 1 PSeipd 18
       else if tag =? 9 then Ok (PSed (py_take len r), py_drop len r)
       else if tag =? 10 then Ok (PMarker (py_take len r), py_drop len r)
-      else if tag =? 19 then Ok (PMdc (firstn 20 r), skipn 20 r)
+      (* MDC.parse: a header that declares anything but 20 octets is refused (it used to take 20 octets whatever was declared) *)
+      else if tag =? 19 then if len =? 20 then Ok (PMdc (firstn 20 r), skipn 20 r) else Reject
       else Ok (POther tag (py_take len r), py_drop len r)
     end.
   (* while len(data) > 0: self |= Packet(data) *)
